@@ -221,7 +221,7 @@ U("addopt", entry="h_addopt", func="cfg_addopt", cbmc=unw(6) + OOM, label="bound
 RES = dict(harness="harness/resolve.c")
 U("parse_title", entry="h_parse_title", func="parse_title", defs={"quick": ["-DPATHN=5", "-DCFGV_FIXED_DUP=8"], "thorough": ["-DPATHN=7", "-DCFGV_FIXED_DUP=10"]},
   cbmc={"quick": unw(7) + NOOOM + LEAK, "thorough": unw(9) + NOOOM + LEAK},
-  label="bounded(qualifier text <= 5 bytes quick / 7 thorough, all bytes; the copy may fail (ghost); fixed-size string copies)", props=["C11", "C18", "C02"], term_props=["C11", "C02"], cost=40, **RES)
+  label="bounded(qualifier text <= 5 bytes quick / 7 thorough, all bytes; the copy may fail (ghost); fixed-size string copies)", props=["C11", "C18", "C07", "C02"], term_props=["C11", "C02"], cost=40, **RES)
 COMBOTXT = ["single section", "multi section, by index", "multi titled section", "multi titled section, case-insensitive", "single titled section"]
 for _combo in range(5):
     for _ns in ((0, 1) if _combo in (0, 4) else (0, 1, 2)):
@@ -237,9 +237,9 @@ for _combo in range(5):
                   props=["C11", "C06", "C09", "C07", "C02"] if _kind == "getopt" else ["C11", "C09", "C07", "C02"], term_props=["C11", "C02"], cost=100 if _pn == 3 else 600, replay="replay/resolve.c", **RES)
 for _c in range(4):
     U("getopt_array_c%d" % _c, entry="h_getopt_array", func="cfg_getopt_array", defs={"quick": ["-DPATHN=3", "-DCFGV_FIXED_DUP=8", "-DGA_CASE=%d" % _c], "thorough": ["-DPATHN=4", "-DCFGV_FIXED_DUP=8", "-DGA_CASE=%d" % _c]},
-      cbmc={"quick": unw(5) + NOOOM, "thorough": unw(6) + NOOOM},
+      cbmc={"quick": unw(5) + NOOOM + LEAK, "thorough": unw(6) + NOOOM + LEAK},
       label="bounded(path <= 3 bytes quick / 4 thorough; recursion by contract on the extracted copy; %s section %s an instance)" % ("multi" if _c & 2 else "single", "with" if _c & 1 else "without"),
-      props=["C14", "C11", "C16", "C02"], term_props=["C11", "C02"], cost=200, **RES)
+      props=["C14", "C11", "C16", "C07", "C02"], term_props=["C11", "C02"], cost=200, **RES)
 for _kind, _entry in (("getopt", "h_getopt_path"), ("getsec", "h_getsec_path")):
     U("%s_deep_c0k1n5" % _kind, entry=_entry, func="cfg_getopt_secidx (three levels)", defs={"quick": ["-DPATHN=5", "-DNSEC=1", "-DTREE_COMBO=0", "-DTREE_DEEP", "-DCFGV_FIXED_DUP=8"]},
       cbmc=unw(7) + NOOOM + LEAK, timeout=1800, label="bounded(path <= 5 bytes over all bytes; three-level tree root{a, s{b, t{c}}}, single sections; no allocation failure)",
@@ -253,7 +253,7 @@ U("getopt_array_leaf", entry="h_getopt_array_leaf", func="cfg_getopt_array (nest
 PTH = dict(harness="harness/paths.c")
 PTRUST = ["stat, getpwuid, getpwnam, geteuid, snprintf(%s/%s): assumed contracts with ghost verdicts (harness/paths.c)"]
 U("make_fullpath", entry="h_make_fullpath", func="cfg_make_fullpath", defs={"quick": ["-DNAMEN=3", "-DCFGV_FIXED_DUP=8"]}, cbmc=unw(8) + OOM + LEAK,
-  label="bounded(directory <= 2 bytes, name <= 3 bytes; allocation may fail)", props=["C17", "C18", "C02"], cost=20, trusted=PTRUST, **PTH)
+  label="bounded(directory <= 2 bytes, name <= 3 bytes; allocation may fail)", props=["C17", "C18", "C07", "C02"], cost=20, trusted=PTRUST, **PTH)
 U("searchpath", entry="h_searchpath", func="cfg_searchpath (recursion by contract on the extracted copy), cfg_make_fullpath", defs={"quick": ["-DNAMEN=3", "-DCFGV_FIXED_DUP=8"]}, cbmc=unw(8) + NOOOM + LEAK,
   label="bounded(name <= 3 bytes, directory 1 byte; list of any length through the nested-call contract; every stat verdict)", props=["C17", "C13", "C07", "C02"], cost=30, trusted=PTRUST, **PTH)
 U("tilde_expand", entry="h_tilde_expand", func="cfg_tilde_expand", defs={"quick": ["-DNAMEN=4", "-DCFGV_FIXED_DUP=8"], "thorough": ["-DNAMEN=6", "-DCFGV_FIXED_DUP=10"]}, cbmc={"quick": unw(8) + OOM, "thorough": unw(10) + OOM},
